@@ -11,7 +11,7 @@ Decides (necessary conditions of the behaviour):
   R12.5 JSON binding: From<Value> and From<&Value> try i64, then u64, then f64, and agree on the constructor per JSON kind
 Not decided: equality of JSON-bound and directly bound values beyond the constructor table."""
 import re
-import lib, mirq
+import lib, mirq, common
 
 POP = "rscel::interp::interp::InterpStack::<'a, 'b>::pop"
 RUN_RAW = "rscel::interp::interp::Interpreter::<'a>::run_raw"
@@ -67,7 +67,10 @@ def pop_program_rows(F):
             hit_rows.append(_sx.render(_sx.deep(st_, r_)))
     RUNP = r"run_raw\(Program::bytecode\(get_program\([^()]*\)\.Some\.0\), 1\)"
     okp = [r_ for r_ in hit_rows if re.match(r"^Result::map\(%s, closure#\d+\)$" % RUNP, r_) or re.match(r"^Result::Ok\((?:\w+::)*\w+\(%s\.Ok\.0\)\)$" % RUNP, r_)
-           or re.match(r"^Result::Err\(%s\.Err\.0\)$" % RUNP, r_) or re.match(r"^%s$" % RUNP, r_)]
+           or re.match(r"^Result::Err\(%s\.Err\.0\)$" % RUNP, r_) or re.match(r"^%s$" % RUNP, r_)
+           # a guard of the interpreter that refuses to evaluate the program at all (cycle detection): it is asked with the NAME, before run_raw,
+           # and its failure is returned as it is (it cannot be of the absent class: C08 R08.2 freezes who may construct that)
+           or (re.match(r"^Result::Err\(Interpreter::\w+\(self\.1, .*\)\.Err\.0\)$", r_) and "run_raw(" not in r_)]
     return hit_rows, okp
 
 
@@ -103,11 +106,11 @@ def run(chk, tier):
             elif not any(j in after for j, _, _ in rr):
                 chk.bad("R12.1", "pop|program hit", "a found program is not evaluated by run_raw", b.file)
             else:
-                rets_ = [i_ for i_, _t in b.terms("return")]
-                skip = q.reach(ve["Some"], blocked=set(j for j, _, _ in rr))
-                if any(r_ in skip for r_ in rets_):
-                    chk.bad("R12.1", "pop|program hit always runs", "a found program can be answered without evaluating it (a path from the hit to the return avoids run_raw): "
-                                                                     "its value then is not what the program computes under the current bindings", b.file)
+                hr_, _ok = pop_program_rows(F)
+                lazy = [r_ for r_ in hr_ if "run_raw(" not in r_ and not re.match(r"^Result::Err\(Interpreter::\w+\(self\.1, .*\)\.Err\.0\)$", r_)]
+                if lazy or not hr_:
+                    chk.bad("R12.1", "pop|program hit always runs", "a found program can be answered without evaluating it (%s): "
+                                                                     "its value then is not what the program computes under the current bindings" % [r_[:100] for r_ in lazy][:2], b.file)
                 else:
                     chk.ok("R12.1", "pop|program hit always runs")
                 chk.ok("R12.1", "pop|program hit runs and returns")
@@ -133,6 +136,65 @@ def run(chk, tier):
             chk.bad("R12.1", "pop|program runs on self.ctx, resolve=true", "run_raw receiver origin %s resolve=%s: a referenced program must run on the same interpreter (same bindings, same depth counter)" % (o, flag), b.file)
     chk.floor("R12.1", "run_raw calls in pop", len(rr), 1)
 
+    # ---------------- R12.6 cycle guard
+    chk.rule("R12.6", "a stored program is never evaluated while it is already being evaluated: identifier resolution and run_program ask a guard with the program's name before "
+                      "run_raw; the guard fails when the name is on the list of programs being evaluated and otherwise lists it until the evaluation returns; child interpreters "
+                      "(macro bodies) inherit the list - a cyclic reference is an error at once instead of after (references per program)^(depth limit) steps")
+    hr6, _ok6 = pop_program_rows(F)
+    guards6 = set()
+    for r_ in hr6:
+        m6 = re.match(r"^Result::Err\(Interpreter::(\w+)\(self\.1, .*\)\.Err\.0\)$", r_)
+        if m6 and "run_raw(" not in r_:
+            guards6.add(m6.group(1))
+    if len(guards6) != 1:
+        chk.bad("R12.6", "pop|guard before evaluation", "an identifier that names a stored program is evaluated without asking whether that program is already being evaluated: "
+                                                         "`a := has(a) || has(a) || has(a)` is evaluated 3^32 times before the depth limit ends it (it practically never returns)", b.file if False else "rscel/src/interp/interp.rs")
+    else:
+        g6 = sorted(guards6)[0]
+        chk.ok("R12.6", "pop|guard before evaluation", g6)
+        gb6 = F.body("rscel::interp::interp::Interpreter::<'a>::" + g6)
+        import symex as _sx6, semtables as _st6
+        it6 = _sx6.Interp(F, _st6.LogicPolicy())
+        rows6 = []
+        for st_, r_ in it6.run(gb6, [_sx6.U("self", gb6.local_ty(1)), _sx6.U("name", gb6.local_ty(2))]):
+            preds6 = [(c[0], str(c[1])) for c in st_.cond if c[0] in ("eq", "ne")]
+            rows6.append((preds6, _sx6.render(_sx6.deep(st_, r_))))
+        member_true_err = any(any(k_ == "ne" and re.search(r"Iterator::any\(|contains\(", e_) for k_, e_ in pr_) and rr_.startswith("Result::Err(") for pr_, rr_ in rows6)
+        member_false_ok = any(any(k_ == "eq" and re.search(r"Iterator::any\(|contains\(", e_) for k_, e_ in pr_) and rr_.startswith("Result::Ok(") for pr_, rr_ in rows6)
+        qg6 = mirq.BodyQ(gb6)
+        pushes6 = [1 for i_, t_, p_ in qg6.call_sites(r"Vec::<T, A>::push$|Vec::<T>::push$") if "p2" in mirq.expr_of(qg6, t_["args"][1])]
+        if member_true_err and member_false_ok and len(rows6) == 2 and pushes6:
+            chk.ok("R12.6", "%s|listed -> error, else list the name" % g6)
+        else:
+            chk.bad("R12.6", "%s|listed -> error, else list the name" % g6, "the guard must fail exactly when the name is already listed and list it otherwise: rows %s, pushes of the name: %d" % ([(p_, r_[:50]) for p_, r_ in rows6], len(pushes6)), gb6.file)
+        # the listing ends when the evaluation returns: the guard's result type pops in its Drop
+        drops6 = [b_ for b_ in F.bodies.values() if b_.pkg == "rscel" and re.search(r"interp::interp::\w+(<'\w+>)? as std::ops::Drop>::drop$", b_.path)]
+        if any(any(re.search(r"Vec::<T, A>::pop$|Vec::<T>::pop$", c_) for c_ in common.callees_of(b_)) for b_ in drops6):
+            chk.ok("R12.6", "listing ends with the evaluation (Drop pops)")
+        else:
+            chk.bad("R12.6", "listing ends with the evaluation (Drop pops)", "no Drop impl of the interpreter module removes the name again: a second, non-cyclic reference to the same program would be refused", gb6.file)
+        rp6 = F.body("rscel::interp::interp::Interpreter::<'a>::run_program")
+        q6 = mirq.BodyQ(rp6)
+        gs = q6.call_sites(r"Interpreter::<'a>::%s$" % g6)
+        rs = q6.call_sites(r"Interpreter::<'a>::run_raw$")
+        if gs and rs and all(any(rp6.dominates(g_[0], r_[0]) for g_ in gs) for r_ in rs):
+            chk.ok("R12.6", "run_program|guard before evaluation")
+        else:
+            chk.bad("R12.6", "run_program|guard before evaluation", "run_program evaluates the entry program without listing it: the first self-reference is not recognised", rp6.file)
+        nc6 = F.body("rscel::interp::interp::Interpreter::<'a>::new_child")
+        qn6 = mirq.BodyQ(nc6)
+        ia = [a_ for a_ in F.adts.values() if a_["path"] == "rscel::interp::interp::Interpreter"][0]
+        fn6 = [f_["name"] for f_ in ia["variants"][0]["fields"]]
+        inherited = False
+        for i_, adt_, var_, s_ in qn6.aggregates(adt_suffix="interp::Interpreter"):
+            ops_ = [mirq.expr_of(qn6, o_) for o_ in s_["rv"]["ops"]]
+            for k_, e_ in enumerate(ops_):
+                if k_ < len(fn6) and re.search(r"\bp1\.%d\b" % k_, e_) and "RefCell" in e_ and ("Vec" in (ia["variants"][0]["fields"][k_]["ty"])):
+                    inherited = True
+        if inherited:
+            chk.ok("R12.6", "new_child|inherits the list")
+        else:
+            chk.bad("R12.6", "new_child|inherits the list", "a child interpreter (macro body) starts with an empty list: a cycle that passes through a macro body, has() or coalesce() is not recognised", nc6.file)
     # ---------------- R12.2
     b = F.body(RUN_RAW)
     q = mirq.BodyQ(b)
